@@ -109,11 +109,23 @@ def best_filtered_leaves(instance, filt, limit=200000, observers=False):
         IsCompletedObserver(d)
     leaves = set()
     count = [0]
+    answers = {}       # dispatcher state -> the distinct answers available_operations() gave in that state
+    sample, seen_nodes = [], [0]
+    rs = random.Random(instance.num_operations * 7919 + len(filt))
 
     def rec(prefix):
         if count[0] > limit:
             return
         avail = list(d.available_operations())
+        key = (tuple(d.job_next_operation_index), tuple(d.job_next_available_time), tuple(d.machine_next_available_time))
+        answers.setdefault(key, set()).add(tuple(o.operation_id + 1 for o in avail))
+        # reservoir sample of visited nodes: (dispatch prefix, what the real filter offered there)
+        seen_nodes[0] += 1
+        rec_node = {"prefix": [[o.job_id + 1, m + 1] for (o, m) in prefix], "avail": [model.op_ref(o) for o in avail]}
+        if len(sample) < 6:
+            sample.append(rec_node)
+        elif rs.random() < 6 / seen_nodes[0]:
+            sample[rs.randrange(6)] = rec_node
         if d.schedule.is_complete():
             leaves.add(int(d.schedule.makespan()))
             count[0] += 1
@@ -130,18 +142,20 @@ def best_filtered_leaves(instance, filt, limit=200000, observers=False):
                     d.dispatch(o2, m2)
 
     rec([])
-    return sorted(leaves), count[0]
+    conflicts = [[list(k[0]), sorted(list(a) for a in v)] for k, v in answers.items() if len(v) > 1][:3]
+    return sorted(leaves), count[0], conflicts, sample
 
 
 def _c08_trace(arg):
     i, inst = arg
     s = dsession.DSession(i + 1, inst, [])
     for filt, obs in ((["dom"], False), ([], False), (["dom"], True)):
-        if obs and i % 2:
+        if obs and i % 2 and len(inst) * 0 == 0 and max(m for job in inst for op in job for m in op["ms"]) > 2:
             continue
         out, res = _outcome(lambda: best_filtered_leaves(s.instance, filt, observers=obs))
         s._ev({"a": "BestFiltered", "bfilt": filt, "with_observers": obs, "out": out,
-               "leaves": res[0] if out == "ok" else [], "nleaves": res[1] if out == "ok" else 0})
+               "leaves": res[0] if out == "ok" else [], "nleaves": res[1] if out == "ok" else 0,
+               "conflicts": res[2] if out == "ok" else [], "nodes": res[3] if out == "ok" else []})
     return s.trace()
 
 
@@ -158,7 +172,7 @@ def c08():
         if k not in seen:
             seen.add(k)
             insts.append(b["inst"])
-    target = len(insts) + _n(chk, 1200, 8000)
+    target = len(insts) + _n(chk, 650, 8000)
     while len(insts) < target:
         # 3 jobs on 3 machines, a few flexible operations, positive durations, 5-8 operations: where a
         # wrong end-time estimate can prune every optimal history
@@ -170,6 +184,13 @@ def c08():
                 job.append({"ms": ms, "d": rng.randint(1, 6)})
             inst.append(job)
         if 5 <= sum(len(j) for j in inst) <= 8:
+            insts.append(inst)
+    # few machines, long jobs (recirculation), widely spread durations: one wrong pruning step can cost the optimum
+    for _ in range(_n(chk, 600, 5000)):
+        inst = []
+        for _j in range(rng.randint(2, 3)):
+            inst.append([{"ms": [rng.randint(1, 2)], "d": rng.choice([1, 2, 3, 10])} for _o in range(rng.randint(1, 3))])
+        if 4 <= sum(len(j) for j in inst) <= 7:
             insts.append(inst)
     insts = [x for x in insts if sum(len(j) for j in x) <= 8]
     from concurrent.futures import ProcessPoolExecutor
